@@ -4,7 +4,7 @@ One function is executed once per core id. The machine records, for the core it 
   * trace    : tagged operations in execution order  (tag, op name, evaluated operands)
   * accesses : buffer accesses (root buffer, [lo, hi), read/write, SSA value used, dynamic instance) labelled with the epoch
   * barriers : barrier sites in execution order; a barrier closes the current epoch
-  * skipped  : scf.for ops that ran zero times (dynamic instance)
+  * skipped  : scf.for ops that ran zero times (dynamic instance); skipped_branches: scf.if regions not taken
 Two accesses are ordered iff they are on the same core or in different epochs, hence the race rule: no two accesses by different
 cores in the same epoch may conflict (same root, overlapping interval, at least one write).
 
@@ -79,6 +79,7 @@ class MultiCoreMachine(Machine):
         self.accesses: list[Access] = []
         self.barriers: list = []  # (site op, iteration vector)
         self.skipped: list = []  # (for op, iteration vector of enclosing loops)
+        self.skipped_branches: list = []  # (scf.if op, region not taken, iteration vector)
         self.epoch = 0
         self.nalloc = 0
         self.core_idx_calls = 0
@@ -126,6 +127,9 @@ class MultiCoreMachine(Machine):
 
     def on_zero_trip(self, op, env):
         self.skipped.append((op, self.iters(op, env)))
+
+    def on_branch_not_taken(self, op, region, env):
+        self.skipped_branches.append((op, region, self.iters(op, env)))
 
     # ------------------------------------------------------------------ ops
     def exec(self, op, operands, env):
@@ -204,6 +208,10 @@ class MCInterp(Interp):
         if op.name == "scf.for":
             if self.get(env, op.lb) >= self.get(env, op.ub):
                 self.m.on_zero_trip(op, env)
+        elif op.name == "scf.if":
+            skipped = op.false_region if self.get(env, op.cond) else op.true_region
+            if skipped.blocks:
+                self.m.on_branch_not_taken(op, skipped, env)
         return super().exec_op(op, env)
 
 
